@@ -703,6 +703,19 @@ func runHistory(rng *rand.Rand, prof histProfile, w *Writer, suite string) {
 			case 2:
 				f = refJoinRequest(d.appkey, d.eui, d.appeui, nonce)
 				tag = "join.swapped-eui"
+			case 6:
+				// the device's own EUI and AppKey (the MIC verifies) but another application's EUI - a registered one when
+				// there is one: the request does not name the application the device belongs to
+				other := eui64(genEUI(rng))
+				for _, a := range h.apps {
+					if a != d.appeui {
+						other = a
+					}
+				}
+				if other != d.appeui {
+					f = refJoinRequest(d.appkey, other, d.eui, nonce)
+					tag = "join.other-application"
+				}
 			case 3:
 				g := append(append([]byte{}, f[:19]...), 0)
 				f = append(g, refCMAC(d.appkey, g)[:4]...)
